@@ -1,6 +1,6 @@
 /-
   Oracle commands for C07 (runner prompt cache):
-    hist <resetEnd> <parallel> <ctx> <batch> <multi> <canShift> <vocab> <eosMod> <stopEarliest> <n> <event>*
+    hist <resetEnd> <parallel> <ctx> <batch> <multi> <canShift> <vocab> <eosMod> <stopEarliest> <crCounted> <window|0> <n> <event>*
       event := req <keep> <numPredict> <nstops> <stop>* <nprompt> <tok>*
              | step <adopt>            adopt := - | e | loc.pos.tok.dpos.s+s,...   (layout observed after a defrag)
              | busy <nprompt> <tok>*
@@ -52,7 +52,7 @@ def runEvent (sv : Server) (now : Nat) : Event → String × Option Server
       match sv.seqs.findIdx? (·.isNone) with
       | none => ("req:err:noindex", some sv)
       | some i =>
-        match loadCacheSlot sv.cache inputs now true with
+        match loadCacheSlot sv.cache inputs now (canResumeV sv.crCounted sv.cache.window) with
         | .error _ => ("req:err:load", some sv)
         | .ok (c, si, rest) =>
           let sq : Seq := { inputs := rest, pending := [], slot := si, numPredict := np, numPredicted := 0,
@@ -60,7 +60,7 @@ def runEvent (sv : Server) (now : Nat) : Event → String × Option Server
           let sv := { sv with cache := c, seqs := sv.seqs.set i (some sq) }
           (s!"req:ok,i={i},slot={(getSlot c.slots si).id},rest={rest.length}", some sv)
   | .busy prompt =>
-    match loadCacheSlot sv.cache prompt now true with
+    match loadCacheSlot sv.cache prompt now (canResumeV sv.crCounted sv.cache.window) with
     | .error .nilDeref => ("busy:panic", some sv)
     | .error _ => ("busy:err", some sv)
     | .ok (c, _, _) => ("busy:ok", some { sv with cache := c })
@@ -154,9 +154,12 @@ def handle (toks : List String) : Option String :=
       let vocab ← nat
       let eosMod ← nat
       let stopEarliest ← nat
-      let evs ← listOf (pEvent (parallel * ctx))
-      let sv := { mkServer resetEnd parallel ctx batch (multi != 0) (canShift != 0) vocab eosMod with
-                  stopEarliest := stopEarliest != 0 }
+      let crCounted ← nat
+      let w ← nat
+      let window := if w == 0 then none else some w
+      let evs ← listOf (pEvent (capacity parallel ctx batch window))
+      let sv := { mkServer resetEnd parallel ctx batch (multi != 0) (canShift != 0) vocab eosMod window with
+                  stopEarliest := stopEarliest != 0, crCounted := crCounted != 0 }
       pure (joinWith " | " (runHist sv evs 1 []))) rest
   | "ll-longest" :: rest =>
     runTP (do
